@@ -5,6 +5,7 @@ import re
 from lib import machine as mc
 from lib.mir import AnchorMissing
 from . import nf_common, nfq
+from .guardlib import gval, comparisons, lt_true, ge_true
 
 MANIFEST = {
     "text": "Finite-domain and ordering rules on the XML tree builder's namespace machinery: over phase x tag kind x is-script the predicate under which process_namespaces pushes a scope equals the predicate under which the same step arm pushes an open element, and pop() removes one scope and one element together and is the only remover; find_uri searches innermost-first and stops at the first binding (un-binding included); declarations are processed before any name of the tag is bound; the tokenizer drops an attribute only when an earlier one has the same qualified name and the tree builder only on equal expanded names after binding. Plus reviewed normal forms of the tree builder, qname.rs and the tokenizer's attribute functions.",
@@ -117,7 +118,7 @@ def r16_2_3(ctx):
     ok = any(any(a == "loop-end" and args == ("break",) for a, args in pc["actions"]) and any(v and "matches Some(_)" in g for g, v in pc["guards"].items()) for pc in pcs)
     ctx.ob("R16.2", "find_uri-stops-at-first-binding", ok, "the first map that has an entry for the prefix decides (an un-binding entry included)")
     key, pcs = nfq.cells(ctx, TB, "::bind_attr_qname")
-    ok = all(("self.bind_qname" in nfq.names(pc)) == bool(pc["guards"].get("p2.prefix.is_some()")) for pc in nfq.feasible(pcs))
+    ok = all(("self.bind_qname" in nfq.names(pc)) == (gval(pc["guards"], "p2.prefix matches Some(_)") is True) for pc in nfq.feasible(pcs))
     ctx.ob("R16.2", "unprefixed-attributes-have-no-namespace", ok, "attributes are resolved only when they have a prefix")
     key, pcs = nfq.cells(ctx, TB, "::process_namespaces")
     bad = None
